@@ -709,9 +709,9 @@ Proof.
       * right. exists k, x'. rewrite Nat.add_succ_r in H. now split.
 Qed.
 
-Lemma rdf_children_unfold fx pg t :
-  rdf_children fx pg t
-  = mapi_cat (fun i c => rdf_node fx pg c (Some i) ++ rdf_children fx (Some (RLit (rdid c))) c) (rch t) 0.
+Lemma rdf_children_unfold fx sk pg t :
+  rdf_children fx sk pg t
+  = mapi_cat (fun i c => rdf_node fx (negb (sk c)) pg c (Some i) ++ rdf_children fx sk (Some (RLit (rdid c))) c) (rch t) 0.
 Proof. destruct t; reflexivity. Qed.
 
 Definition lit (n : rt) : rnode := RLit (rdid n).
@@ -719,11 +719,11 @@ Definition lit (n : rt) : rnode := RLit (rdid n).
 (* every triple comes from one _add_child_node call: for a child of the start
    node with the start node's graph node as parent, for a deeper node with its
    parent's Literal(data_id) *)
-Lemma rdf_children_in fx : forall t og tr,
-  In tr (rdf_children fx og t) <->
-  (exists i c, nth_error (rch t) i = Some c /\ In tr (rdf_node fx og c (Some i))) \/
+Lemma rdf_children_in fx sk : forall t og tr,
+  In tr (rdf_children fx sk og t) <->
+  (exists i c, nth_error (rch t) i = Some c /\ In tr (rdf_node fx (negb (sk c)) og c (Some i))) \/
   (exists c0 p i c, In c0 (rch t) /\ In p (pre c0) /\ nth_error (rch p) i = Some c /\
-                    In tr (rdf_node fx (Some (lit p)) c (Some i))).
+                    In tr (rdf_node fx (negb (sk c)) (Some (lit p)) c (Some i))).
 Proof.
   induction t as [id inf ch IH] using rt_ind'. intros og tr.
   rewrite rdf_children_unfold, mapi_cat_in. cbn [rch Nat.add]. rewrite Forall_forall in IH. split.
@@ -741,52 +741,53 @@ Proof.
 Qed.
 
 (* what one _add_child_node call contributes *)
-Lemma rdf_node_has_child pg n idx x y :
-  In (THasChild x y) (rdf_node true pg n idx) <-> pg = Some x /\ y = lit n.
+Lemma rdf_node_has_child std pg n idx x y :
+  In (THasChild x y) (rdf_node true std pg n idx) <-> pg = Some x /\ y = lit n.
 Proof.
   unfold rdf_node, lit. rewrite !in_app_iff. cbn [orb].
-  destruct pg as [g|], (rkind n) as [k|], idx as [i|]; cbn [In];
+  destruct std, pg as [g|], (rkind n) as [k|], idx as [i|]; cbn [In app];
     (split; [intros H; decompose [or] H; try discriminate; try contradiction;
              match goal with E : THasChild _ _ = THasChild _ _ |- _ => injection E as -> ->; split; reflexivity end
             | intros [E ->]; try discriminate; injection E as ->; left; left; reflexivity ]).
 Qed.
 
-Lemma rdf_node_name fx pg n idx g nm :
-  In (TName g nm) (rdf_node fx pg n idx) <-> g = lit n /\ nm = rname n.
+Lemma rdf_node_name fx std pg n idx g nm :
+  In (TName g nm) (rdf_node fx std pg n idx) <-> std = true /\ g = lit n /\ nm = rname n.
 Proof.
   unfold rdf_node, lit. rewrite !in_app_iff.
-  destruct pg as [p|]; [destruct (fx || rnode_truthy p)|]; destruct (rkind n) as [k|], idx as [i|]; cbn [In];
+  destruct std; (destruct pg as [p|]; [destruct (fx || rnode_truthy p)|]); destruct (rkind n) as [k|], idx as [i|]; cbn [In app];
     (split; [intros H; decompose [or] H; try discriminate; try contradiction;
-             match goal with E : TName _ _ = TName _ _ |- _ => injection E as <- <-; split; reflexivity end
-            | intros [-> ->]; tauto ]).
+             match goal with E : TName _ _ = TName _ _ |- _ => injection E as <- <-; repeat split; reflexivity end
+            | intros [E [-> ->]]; try discriminate; tauto ]).
 Qed.
 
-Lemma rdf_node_kind fx pg n idx g k :
-  In (TKind g k) (rdf_node fx pg n idx) <-> g = lit n /\ rkind n = Some k.
+Lemma rdf_node_kind fx std pg n idx g k :
+  In (TKind g k) (rdf_node fx std pg n idx) <-> std = true /\ g = lit n /\ rkind n = Some k.
 Proof.
   unfold rdf_node, lit. rewrite !in_app_iff.
-  destruct pg as [p|]; [destruct (fx || rnode_truthy p)|]; destruct (rkind n) as [k'|], idx as [i|]; cbn [In];
+  destruct std; (destruct pg as [p|]; [destruct (fx || rnode_truthy p)|]); destruct (rkind n) as [k'|], idx as [i|]; cbn [In app];
     (split; [intros H; decompose [or] H; try discriminate; try contradiction;
-             match goal with E : TKind _ _ = TKind _ _ |- _ => injection E as <- <-; split; reflexivity end
-            | intros [-> E]; try discriminate; injection E as ->; tauto ]).
+             match goal with E : TKind _ _ = TKind _ _ |- _ => injection E as <- <-; repeat split; reflexivity end
+            | intros [E0 [-> E]]; try discriminate; injection E as ->; tauto ]).
 Qed.
 
-Lemma rdf_node_index fx pg n idx g i :
-  In (TIndex g i) (rdf_node fx pg n idx) <-> g = lit n /\ idx = Some i.
+Lemma rdf_node_index fx std pg n idx g i :
+  In (TIndex g i) (rdf_node fx std pg n idx) <-> std = true /\ g = lit n /\ idx = Some i.
 Proof.
   unfold rdf_node, lit. rewrite !in_app_iff.
-  destruct pg as [p|]; [destruct (fx || rnode_truthy p)|]; destruct (rkind n) as [k'|], idx as [i'|]; cbn [In];
+  destruct std; (destruct pg as [p|]; [destruct (fx || rnode_truthy p)|]); destruct (rkind n) as [k'|], idx as [i'|]; cbn [In app];
     (split; [intros H; decompose [or] H; try discriminate; try contradiction;
-             match goal with E : TIndex _ _ = TIndex _ _ |- _ => injection E as <- <-; split; reflexivity end
-            | intros [-> E]; try discriminate; injection E as ->; tauto ]).
+             match goal with E : TIndex _ _ = TIndex _ _ |- _ => injection E as <- <-; repeat split; reflexivity end
+            | intros [E0 [-> E]]; try discriminate; injection E as ->; tauto ]).
 Qed.
 
 Lemma in_pre_f_split (f : list rt) p : In p (pre_f f) <-> exists c0, In c0 f /\ In p (pre c0).
 Proof. apply in_flat_map. Qed.
 
-(* has_child triples = image of the tree edges whose parent is exported *)
-Lemma rdf_children_has_child t og x y :
-  In (THasChild x y) (rdf_children true og t) <->
+(* has_child triples = image of the tree edges whose parent is exported,
+   whatever the node_mapper answers *)
+Lemma rdf_children_has_child sk t og x y :
+  In (THasChild x y) (rdf_children true sk og t) <->
   (og = Some x /\ exists c, In c (rch t) /\ y = lit c) \/
   (exists p c, In p (pre_f (rch t)) /\ In c (rch p) /\ x = lit p /\ y = lit c).
 Proof.
@@ -802,8 +803,8 @@ Proof.
       now apply rdf_node_has_child.
 Qed.
 
-Lemma rdf_of_node_has_child a s x y :
-  In (THasChild x y) (rdf_of_node true a s) <->
+Lemma rdf_of_node_has_child sk a s x y :
+  In (THasChild x y) (rdf_of_node true sk a s) <->
   exists p c, In p (export a s) /\ In c (rch p) /\ x = lit p /\ y = lit c.
 Proof.
   unfold rdf_of_node. destruct a; cbn [export app].
@@ -829,27 +830,6 @@ Proof.
   - intros [[-> H]|H]; right; [left; now split|now right].
 Qed.
 
-(* attribute triples: one name (kind, index) triple per exported node *)
-Lemma rdf_children_name fx t og g nm :
-  In (TName g nm) (rdf_children fx og t) <-> exists n, In n (pre_f (rch t)) /\ g = lit n /\ nm = rname n.
-Proof.
-  rewrite rdf_children_in. split.
-  - intros [[i [c [Hi H]]]|[c0 [p [i [c [Hc0 [Hp [Hi H]]]]]]]]; apply rdf_node_name in H; destruct H as [-> ->]; exists c.
-    + split; [apply in_pre_f_top; now apply nth_error_In in Hi|split; reflexivity].
-    + split; [|split; reflexivity]. apply (pre_f_child_closed _ p); [apply in_pre_f_split; now exists c0|now apply nth_error_In in Hi].
-  - intros [n [Hn [-> ->]]]. apply in_pre_f_split in Hn. destruct Hn as [c0 [Hc0 Hn]].
-    rewrite pre_unfold in Hn. destruct Hn as [<-|Hn].
-    + left. destruct (In_nth_error _ _ Hc0) as [i Hi]. exists i, c0. split; [exact Hi|]. now apply rdf_node_name.
-    + right. assert (P : exists p, In p (pre c0) /\ In n (rch p)).
-      { clear Hc0. revert Hn. induction c0 as [id inf ch IH] using rt_ind'. cbn [rch]. intros Hn.
-        apply in_flat_map in Hn. destruct Hn as [c1 [Hc1 Hn]]. rewrite pre_unfold in Hn. destruct Hn as [<-|Hn].
-        - exists (T id inf ch). split; [apply pre_in_self|exact Hc1].
-        - rewrite Forall_forall in IH. destruct (IH c1 Hc1 Hn) as [p [Hp Hc]]. exists p. split; [|exact Hc].
-          rewrite pre_unfold. right. apply in_flat_map. exists c1. now split. }
-      destruct P as [p [Hp Hc]]. destruct (In_nth_error _ _ Hc) as [i Hi]. exists c0, p, i, n.
-      repeat split; try assumption. now apply rdf_node_name.
-Qed.
-
 (* every proper descendant has a parent below (or at) the start *)
 Lemma below_has_parent : forall t n, In n (pre_f (rch t)) -> exists p i, In p (pre t) /\ nth_error (rch p) i = Some n.
 Proof.
@@ -860,9 +840,9 @@ Proof.
     rewrite pre_unfold. right. apply in_flat_map. exists c1. now split.
 Qed.
 
-Lemma rdf_children_attr fx t og tr (Q : rt -> option nat -> Prop) :
-  (forall pg n idx, In tr (rdf_node fx pg n idx) <-> Q n idx) ->
-  (In tr (rdf_children fx og t) <-> exists p i c, In p (pre t) /\ nth_error (rch p) i = Some c /\ Q c (Some i)).
+Lemma rdf_children_attr fx sk t og tr (Q : rt -> option nat -> Prop) :
+  (forall pg n idx, In tr (rdf_node fx (negb (sk n)) pg n idx) <-> Q n idx) ->
+  (In tr (rdf_children fx sk og t) <-> exists p i c, In p (pre t) /\ nth_error (rch p) i = Some c /\ Q c (Some i)).
 Proof.
   intros HQ. rewrite rdf_children_in. split.
   - intros [[i [c [Hi H]]]|[c0 [p [i [c [Hc0 [Hp [Hi H]]]]]]]]; apply HQ in H.
@@ -873,50 +853,71 @@ Proof.
     + right. apply in_pre_f_split in Hp. destruct Hp as [c0 [Hc0 Hp]]. exists c0, p, i, c. repeat split; try assumption. now apply HQ.
 Qed.
 
-Lemma rdf_children_index fx t og g i :
-  In (TIndex g i) (rdf_children fx og t) <-> exists p c, In p (pre t) /\ nth_error (rch p) i = Some c /\ g = lit c.
+Lemma negb_true_false b : negb b = true <-> b = false.
+Proof. destruct b; split; intros H; try reflexivity; discriminate. Qed.
+
+(* attribute triples: one name (kind, index) triple per exported node for
+   which the mapper did not answer False *)
+Lemma rdf_children_index fx sk t og g i :
+  In (TIndex g i) (rdf_children fx sk og t) <->
+  exists p c, In p (pre t) /\ nth_error (rch p) i = Some c /\ sk c = false /\ g = lit c.
 Proof.
-  rewrite (rdf_children_attr fx t og _ (fun n idx => g = lit n /\ idx = Some i)); [|intros; apply rdf_node_index].
+  rewrite (rdf_children_attr fx sk t og _ (fun n idx => negb (sk n) = true /\ g = lit n /\ idx = Some i)); [|intros; apply rdf_node_index].
   split.
-  - intros [p [j [c [Hp [Hj [-> E]]]]]]. injection E as ->. now exists p, c.
-  - intros [p [c [Hp [Hi ->]]]]. exists p, i, c. repeat split; assumption.
+  - intros [p [j [c [Hp [Hj [S [-> E]]]]]]]. injection E as ->. apply negb_true_false in S. now exists p, c.
+  - intros [p [c [Hp [Hi [S ->]]]]]. exists p, i, c. apply negb_true_false in S. repeat split; assumption.
 Qed.
 
-Lemma rdf_children_kind fx t og g k :
-  In (TKind g k) (rdf_children fx og t) <-> exists n, In n (pre_f (rch t)) /\ g = lit n /\ rkind n = Some k.
+Lemma rdf_children_kind fx sk t og g k :
+  In (TKind g k) (rdf_children fx sk og t) <->
+  exists n, In n (pre_f (rch t)) /\ sk n = false /\ g = lit n /\ rkind n = Some k.
 Proof.
-  rewrite (rdf_children_attr fx t og _ (fun n idx => g = lit n /\ rkind n = Some k)); [|intros; apply rdf_node_kind].
+  rewrite (rdf_children_attr fx sk t og _ (fun n idx => negb (sk n) = true /\ g = lit n /\ rkind n = Some k)); [|intros; apply rdf_node_kind].
   split.
-  - intros [p [j [c [Hp [Hj [-> E]]]]]]. exists c. split; [|now split].
+  - intros [p [j [c [Hp [Hj [S [-> E]]]]]]]. apply negb_true_false in S. exists c. split; [|now repeat split].
     rewrite <- desc_p_snd. change c with (snd (p, c)). apply in_map. apply desc_p_in. split; [exact Hp|now apply nth_error_In in Hj].
-  - intros [n [Hn [-> E]]]. destruct (below_has_parent t n Hn) as [p [i [Hp Hi]]]. exists p, i, n. repeat split; assumption.
+  - intros [n [Hn [S [-> E]]]]. destruct (below_has_parent t n Hn) as [p [i [Hp Hi]]]. exists p, i, n.
+    apply negb_true_false in S. repeat split; assumption.
 Qed.
 
-Lemma rdf_of_node_name fx a s g nm :
-  In (TName g nm) (rdf_of_node fx a s) <-> exists n, In n (export a s) /\ g = lit n /\ nm = rname n.
+Lemma rdf_children_name fx sk t og g nm :
+  In (TName g nm) (rdf_children fx sk og t) <->
+  exists n, In n (pre_f (rch t)) /\ sk n = false /\ g = lit n /\ nm = rname n.
+Proof.
+  rewrite (rdf_children_attr fx sk t og _ (fun n idx => negb (sk n) = true /\ g = lit n /\ nm = rname n)); [|intros; apply rdf_node_name].
+  split.
+  - intros [p [j [c [Hp [Hj [S [-> ->]]]]]]]. apply negb_true_false in S. exists c. split; [|now repeat split].
+    rewrite <- desc_p_snd. change c with (snd (p, c)). apply in_map. apply desc_p_in. split; [exact Hp|now apply nth_error_In in Hj].
+  - intros [n [Hn [S [-> ->]]]]. destruct (below_has_parent t n Hn) as [p [i [Hp Hi]]]. exists p, i, n.
+    apply negb_true_false in S. repeat split; assumption.
+Qed.
+
+Lemma rdf_of_node_name fx sk a s g nm :
+  In (TName g nm) (rdf_of_node fx sk a s) <-> exists n, In n (export a s) /\ sk n = false /\ g = lit n /\ nm = rname n.
 Proof.
   unfold rdf_of_node. destruct a; cbn [export app].
   - rewrite in_app_iff, rdf_node_name, rdf_children_name. split.
-    + intros [[-> ->]|[n [Hn H]]]; [exists s; split; [now left|split; reflexivity]|exists n; split; [now right|exact H]].
-    + intros [n [[<-|Hn] H]]; [now left|right; now exists n].
+    + intros [[S [-> ->]]|[n [Hn H]]]; [exists s; apply negb_true_false in S; split; [now left|now repeat split]|exists n; split; [now right|exact H]].
+    + intros [n [[<-|Hn] [S H]]]; [left; split; [now apply negb_true_false|exact H]|right; now exists n].
   - apply rdf_children_name.
 Qed.
 
-Lemma rdf_of_node_kind fx a s g k :
-  In (TKind g k) (rdf_of_node fx a s) <-> exists n, In n (export a s) /\ g = lit n /\ rkind n = Some k.
+Lemma rdf_of_node_kind fx sk a s g k :
+  In (TKind g k) (rdf_of_node fx sk a s) <-> exists n, In n (export a s) /\ sk n = false /\ g = lit n /\ rkind n = Some k.
 Proof.
   unfold rdf_of_node. destruct a; cbn [export app].
   - rewrite in_app_iff, rdf_node_kind, rdf_children_kind. split.
-    + intros [[-> E]|[n [Hn H]]]; [exists s; split; [now left|now split]|exists n; split; [now right|exact H]].
-    + intros [n [[<-|Hn] H]]; [now left|right; now exists n].
+    + intros [[S [-> E]]|[n [Hn H]]]; [exists s; apply negb_true_false in S; split; [now left|now repeat split]|exists n; split; [now right|exact H]].
+    + intros [n [[<-|Hn] [S H]]]; [left; split; [now apply negb_true_false|exact H]|right; now exists n].
   - apply rdf_children_kind.
 Qed.
 
-Lemma rdf_of_node_index fx a s g i :
-  In (TIndex g i) (rdf_of_node fx a s) <-> exists p c, In p (pre s) /\ nth_error (rch p) i = Some c /\ g = lit c.
+Lemma rdf_of_node_index fx sk a s g i :
+  In (TIndex g i) (rdf_of_node fx sk a s) <->
+  exists p c, In p (pre s) /\ nth_error (rch p) i = Some c /\ sk c = false /\ g = lit c.
 Proof.
   unfold rdf_of_node. destruct a.
-  - rewrite in_app_iff, rdf_node_index, rdf_children_index. split; [intros [[_ E]|H]; [discriminate|exact H]|intros H; now right].
+  - rewrite in_app_iff, rdf_node_index, rdf_children_index. split; [intros [[_ [_ E]]|H]; [discriminate|exact H]|intros H; now right].
   - apply rdf_children_index.
 Qed.
 
@@ -925,20 +926,24 @@ Lemma rdf_of_tree_name fx tn root g nm :
   (g = RSys /\ nm = tn) \/ exists n, In n (pre_f (rch root)) /\ g = lit n /\ nm = rname n.
 Proof.
   unfold rdf_of_tree. cbn [In]. rewrite rdf_children_name. split.
-  - intros [E|H]; [injection E as <- <-; now left|now right].
-  - intros [[-> ->]|H]; [now left|now right].
+  - intros [E|[n [Hn [_ H]]]]; [injection E as <- <-; now left|right; now exists n].
+  - intros [[-> ->]|[n [Hn H]]]; [now left|right; exists n; split; [exact Hn|split; [reflexivity|exact H]]].
 Qed.
 
 Lemma rdf_of_tree_kind fx tn root g k :
   In (TKind g k) (rdf_of_tree fx tn root) <-> exists n, In n (pre_f (rch root)) /\ g = lit n /\ rkind n = Some k.
 Proof.
-  unfold rdf_of_tree. cbn [In]. rewrite rdf_children_kind. split; [intros [E|H]; [discriminate|exact H]|intros H; now right].
+  unfold rdf_of_tree. cbn [In]. rewrite rdf_children_kind. split.
+  - intros [E|[n [Hn [_ H]]]]; [discriminate|now exists n].
+  - intros [n [Hn H]]. right. exists n. split; [exact Hn|split; [reflexivity|exact H]].
 Qed.
 
 Lemma rdf_of_tree_index fx tn root g i :
   In (TIndex g i) (rdf_of_tree fx tn root) <-> exists p c, In p (pre root) /\ nth_error (rch p) i = Some c /\ g = lit c.
 Proof.
-  unfold rdf_of_tree. cbn [In]. rewrite rdf_children_index. split; [intros [E|H]; [discriminate|exact H]|intros H; now right].
+  unfold rdf_of_tree. cbn [In]. rewrite rdf_children_index. split.
+  - intros [E|[p [c [Hp [Hi [_ H]]]]]]; [discriminate|now exists p, c].
+  - intros [p [c [Hp [Hi H]]]]. right. exists p, c. split; [exact Hp|split; [exact Hi|split; [reflexivity|exact H]]].
 Qed.
 
 (* ---------------------------------------------- Mermaid lines as text *)
@@ -1234,13 +1239,15 @@ Proof.
   exact (conj (mer_edge_text_plain i j) (conj (mer_edge_text_typed i j k) (conj (mer_node_text_plain i nm) (undec_dec i)))).
 Qed.
 
-Lemma all_rdf_attributes_of_node : forall fx a s g,
-  (forall nm, In (TName g nm) (rdf_of_node fx a s) <-> exists n, In n (export a s) /\ g = RLit (rdid n) /\ nm = rname n) /\
-  (forall k, In (TKind g k) (rdf_of_node fx a s) <-> exists n, In n (export a s) /\ g = RLit (rdid n) /\ rkind n = Some k) /\
-  (forall i, In (TIndex g i) (rdf_of_node fx a s) <->
-             exists p c, In p (pre s) /\ nth_error (rch p) i = Some c /\ g = RLit (rdid c)).
+Lemma all_rdf_attributes_of_node : forall fx sk a s g,
+  (forall nm, In (TName g nm) (rdf_of_node fx sk a s) <->
+              exists n, In n (export a s) /\ sk n = false /\ g = RLit (rdid n) /\ nm = rname n) /\
+  (forall k, In (TKind g k) (rdf_of_node fx sk a s) <->
+             exists n, In n (export a s) /\ sk n = false /\ g = RLit (rdid n) /\ rkind n = Some k) /\
+  (forall i, In (TIndex g i) (rdf_of_node fx sk a s) <->
+             exists p c, In p (pre s) /\ nth_error (rch p) i = Some c /\ sk c = false /\ g = RLit (rdid c)).
 Proof.
-  intros fx a s g. split; [|split].
+  intros fx sk a s g. split; [|split].
   - intros nm. apply rdf_of_node_name.
   - intros k. apply rdf_of_node_kind.
   - intros i. apply rdf_of_node_index.
